@@ -27,6 +27,9 @@ import Proofs.RoundTripWalk
 import Proofs.RoundTripDoc
 import Proofs.RoundTripSer
 import Proofs.RoundTripMarks
+import Proofs.RoundTripForest
+import Proofs.RoundTripSerM
+import Proofs.RoundTripFull
 namespace PM.C19
 open PM.Dom
 
@@ -878,8 +881,16 @@ end Examples
   is the last active one and is taken off (`roundtrip_marks_close_partial`); and the three chained for one emitted mark
   element of the walk (`roundtrip_marks_element_partial`).  The invariant is `MarkSt`: active marks ++
   pending marks of the open context = the marks of the enclosing emitted mark elements, outermost first.
-  Missing for the full statement: the forest of mark elements `serialize_fragment` emits for a textblock (keep-open
-  prefix of marks) as a structure, and the induction over that forest chaining the three mark steps. -/
+  For a textblock with marked children both halves are proved separately: `roundtrip_marks_export_partial` — what
+  `serialize_fragment` emits for a list of inline nodes is the rendering of the forest `build kids [] []` (the replay of the
+  active-mark stack: keep the common prefix open, close the rest, open the new marks), whose leaves are the nodes in
+  order, each below exactly its marks, every mark element containing a node; `roundtrip_marks_import_partial` — the walk
+  over the DOM of such a forest inside an open textblock context rebuilds the nodes *with their marks* (chaining the mark
+  steps above; `follows` / `Chain` come from validity: `checkNode` ⇒ canonical mark sets ⇒ `CanonP`).
+  Missing for the full statement: `toDomList (forestHtml F) = forestDom F` (adjacent text leaves at one level would have
+  equal marks, which normalised content excludes — so no text merging), and plugging the forest branch into the document
+  induction (`walk_node` / `ser_dom_node`, elem case with marked flat children: `addDom_node` needs `Stable` instead of
+  `Rel` for the child context, the canonical DOM needs the forest branch). -/
 
 open PM PM.RoundTrip PM.FromDom in
 /-- **text survives** (stage i of the round trip): inside an open context `cx` (type `t`, automaton state `q`, nothing
@@ -1041,6 +1052,36 @@ theorem roundtrip_marks_element_partial (R : RParser) (w : DomWalk.WState) (base
       Inv R.P.S w3 base cx3 [] c2 ∧ MarkSt cx3 t q2 (pa ++ pp) [] ∧ cx3.uid = cx.uid :=
   addDom_markElem R w base cx c c2 t q q2 pa pp m tag attrs r ra dkids ptag prevBr hi hs hig hlt hf hst hrn hrm hca hfo hkids
 
+open PM PM.RoundTrip PM.FromDom in
+/-- **the nesting `serialize_fragment` emits** for inline nodes with marks (texts and inline leaves whose marks are emitted
+    as `[tag, attrs, 0]`, spanning): the rendering of the forest `build kids [] []`; that forest is well formed (every leaf
+    below exactly its marks, every mark element contains a node) and its leaves are the nodes, in order -/
+theorem roundtrip_marks_export_partial (S : Schema) (D : ToDom) (univ : List Mark) (kids : List Node)
+    (hk : ∀ k ∈ kids, InlOk S D univ k) :
+    Dom.serFrag (annotateList S D univ kids) [] [] = forestHtml S D univ (build kids [] []) ∧
+    forestOk [] (build kids [] []) = true ∧ flatF (build kids [] []) = kids :=
+  ⟨by simpa [forestHtml] using serFrag_forest S D univ kids [] [] hk (fun x hx => by cases hx),
+   (build_top kids).1, (build_top kids).2⟩
+
+open PM PM.RoundTrip PM.FromDom in
+/-- **the walk over a forest of mark elements rebuilds the nodes with their marks**: inside an open textblock context
+    (type `t`, nothing pending or active), for a well-formed forest `F` whose leaves are whitespace-normal and faithfully
+    emitted (`kidsOk`), valid (`LeafHyp`: canonical, allowed mark sets) and accepted by the automaton, `add_all` over
+    the forest's DOM appends exactly the leaves — each with the marks of its enclosing mark elements, i.e. its own — and
+    leaves the context with nothing pending or active -/
+theorem roundtrip_marks_import_partial (R : RParser) (D : ToDom) (F : List MTree) (w : DomWalk.WState) (base : List NodeCtx)
+    (cx : NodeCtx) (c : List Node) (t : TypeId) (q qe : Nat) (opts : Opts) (prev : Option (Node × String)) (prevBr : Bool)
+    (ptag : String)
+    (hi : Inv R.P.S w base cx [] c) (hs : MarkSt cx t q [] []) (ho : cx.opts = opts) (hok : forestOk [] F = true)
+    (hinl : (R.P.S.nodeType t).inlineContent = true) (hko : kidsOk R D opts t prev (flatF F) = true)
+    (hlh : ∀ n ∈ flatF F, LeafHyp R t n) (hrun : (R.P.S.dfa t).run q (R.P.S.types (flatF F)) = some qe)
+    (hprev : PrevOk prev c prevBr) :
+    ∃ w' cx', DomWalk.addAll R.P ptag (forestDom R D F) prevBr w = .ok w' ∧ Inv R.P.S w' base cx' [] (c ++ flatF F) ∧
+      MarkSt cx' t qe [] [] ∧ Stable cx cx' := by
+  obtain ⟨w', cx', h1, h2, h3, h4⟩ := walk_forest R D F w base cx c t q qe opts prev prevBr ptag [] [] [] hi hs ho rfl
+    (fun m hm => by cases hm) hok hinl hko hlh hrun hprev
+  exact ⟨w', cx', h1, h2, by simpa using h3, h4⟩
+
 namespace RoundTripExamples
 open PM.RoundTrip PM.FromDom
 -- labelled tests of the whitespace rule (`textOk`): "foo", "a b" are normal; a leading space at the start of a textblock,
@@ -1117,7 +1158,14 @@ example : follows SB [⟨0, []⟩] ⟨1, []⟩ := by
   intro o ho
   simp only [List.mem_singleton] at ho
   subst ho
-  exact ⟨by decide, by decide, by decide⟩
+  exact ⟨⟨by decide, by decide⟩, by decide, by decide⟩
+-- the forest of p(em("a "), strong("b")) — "spaces between differently marked words": two mark elements, the space inside the first
+example : build [.text [97, 32] [⟨0, []⟩], .text [98] [⟨1, []⟩]] [] [] =
+    [.wrap ⟨0, []⟩ [.leaf (.text [97, 32] [⟨0, []⟩])], .wrap ⟨1, []⟩ [.leaf (.text [98] [⟨1, []⟩])]] := by rfl
+-- … and of em("a"), em+strong("b"), strong("c"): `em` stays open over the second node, `strong` is reopened for the third
+example : build [.text [97] [⟨0, []⟩], .text [98] [⟨0, []⟩, ⟨1, []⟩], .text [99] [⟨1, []⟩]] [] [] =
+    [.wrap ⟨0, []⟩ [.leaf (.text [97] [⟨0, []⟩]), .wrap ⟨1, []⟩ [.leaf (.text [98] [⟨0, []⟩, ⟨1, []⟩])]],
+     .wrap ⟨1, []⟩ [.leaf (.text [99] [⟨1, []⟩])]] := by rfl
 end RoundTripExamples
 
 end PM.C19
